@@ -9,9 +9,9 @@ git diff -- ethosu > $D/patch.diff
 cp SEED/demo.py $D/demo.py; cp SEED/notes.md $D/notes.md 2>/dev/null
 export TMPDIR=$WT/SEED_TMP; mkdir -p $TMPDIR
 PYTHONPATH=$WT timeout 1200 /venv/bin/python SEED/demo.py > $D/demo_with.log 2>&1; W=$?
-git stash -q
+git apply -R $D/patch.diff      # (not git stash: the stash is shared by all worktrees of a repository)
 PYTHONPATH=$WT timeout 1200 /venv/bin/python SEED/demo.py > $D/demo_without.log 2>&1; WO=$?
-git stash pop -q
+git apply $D/patch.diff
 echo "demo with change: exit $W ; without: exit $WO"
 unset TMPDIR
 rsync -a --exclude .git --exclude 'build/cache' --exclude replay /verif/ /tmp/verif_seed/
